@@ -860,6 +860,9 @@ def run_property(prop, tier, seed):
                      ["push", "push_from"])
         coded_stage(out, q, seed, lambda e: e["why"] in ("push-panicked", "read-failed", "read-differs", "read-back-differs",
                                                          "merge-panicked", "clear-panicked"))
+        # every index sequence of the ICMC alphabet (incl. 2^63, usize::MAX) taken through regions whose inner index
+        # is the value: SliceRegion<MirrorRegion<usize>, S> and FlatStack<MirrorRegion<usize>, S>
+        ic_stage(out, "index-through-region", prop, ["opt", "list", "vec"], "full", 4 if q else 5, 0)
         dictionary_random_stage(out, q, seed, lambda e: e["why"] in ("push-panicked", "read-failed", "read-differs", "read-back-differs"),
                                 "dictionary-histories")
         coded_columns_stage(out, q, seed, lambda e: e["why"] in ("read-failed", "read-differs", "push-into-merged-panicked"))
@@ -869,6 +872,7 @@ def run_property(prop, tier, seed):
                      ["push", "reserve_items", "reserve_regions"])
         region_stage(out, "two-slots", prop, allnames, 2, 3 if q else 4, 1, 3,
                      ["push", "push_from", "reserve_regions"])
+        ic_stage(out, "index-through-region", prop, ["opt", "list", "vec"], "full", 4 if q else 5, 1)
         coded_stage(out, q, seed, lambda e: e["why"] == "earlier-item-changed")
         # long random histories: items of every bit length at every bit offset, re-read after each later push
         huffman_random_stage(out, q, seed, lambda e: e["why"] == "earlier-item-changed", "huffman-histories")
@@ -888,6 +892,7 @@ def run_property(prop, tier, seed):
         ic_walk_stage(out, q, seed, lambda e: e.get("afterclear", False) or e["why"] == "clear-panicked")
     elif prop == "C03":
         stack_stage(out, "flatstack", prop, stack_names(), 4 if q else 5, 1, 3 if q else 4, FS_OPS_ALL)
+        ic_stage(out, "index-through-stack", prop, ["opt", "list", "vec"], "full", 4 if q else 5, 0)
         contract_trace_stage(out, ["C03"], q, seed, runs=0)
     elif prop == "C09":
         names = subjects_where(cat, lambda e: e["caps"]["clone"])
